@@ -41,7 +41,23 @@ fn install_hook() {
                 Some(i) => &f[i + 1..],
                 None => f,
             };
-            format!("{}:{}", f, l.line())
+            let mut loc = format!("{}:{}", f, l.line());
+            if f.starts_with("library/") {
+                // a std function with inherited overflow checks (abs, pow, ...): name the first caller frame that
+                // belongs to the code under test (symbols only: the harness is built without debug info)
+                let bt = std::backtrace::Backtrace::force_capture().to_string();
+                for line in bt.lines() {
+                    let t = line.trim();
+                    let name = t.split_once(": ").map(|x| x.1).unwrap_or(t);
+                    if ["skrifa::", "read_fonts::", "font_types::", "klippa::", "incremental_font_transfer::", "write_fonts::"].iter().any(|c| name.starts_with(c)) {
+                        // drop the hash suffix
+                        let name = name.rsplit_once("::h").map(|x| x.0).unwrap_or(name);
+                        loc = format!("{} in {}", loc, name);
+                        break;
+                    }
+                }
+            }
+            loc
         });
         LAST_LOC.with(|c| *c.borrow_mut() = loc);
     }));
@@ -72,7 +88,9 @@ enum Kind {
 }
 
 fn classify(msg: &str) -> Kind {
-    if msg.starts_with("attempt to") && msg.contains("with overflow") {
+    // arithmetic traps: overflow / negate / shift checks and the division checks (a zero divisor panics in
+    // every profile; it is the same class of defect: arithmetic on a font-controlled quantity left unguarded)
+    if msg.starts_with("attempt to") && (msg.contains("with overflow") || msg.contains("divide by zero") || msg.contains("divisor of zero")) {
         Kind::Overflow
     } else if msg.contains("assertion") || msg.contains("debug_assert") {
         Kind::Assert
@@ -1798,7 +1816,7 @@ fn run_api(bytes: &[u8], api: usize, sel: u64) -> Result<(), Trap> {
             v.push(65535);
             v
         };
-        let sizes = [Size::unscaled(), Size::new(16.0), Size::new(1.0), Size::new(65535.0), Size::new(1.0e9), Size::new(0.0), Size::new(11.3)];
+        let sizes = [Size::unscaled(), Size::new(16.0), Size::new(1.0), Size::new(65535.0), Size::new(1.0e9), Size::new(0.0), Size::new(11.3), Size::new(8.0), Size::new(64.0), Size::new(1000.0)];
         let size = sizes[rng.below(sizes.len() as u64) as usize];
         let axes = font.axes();
         let loc = {
@@ -1869,7 +1887,9 @@ fn run_api(bytes: &[u8], api: usize, sel: u64) -> Result<(), Trap> {
                     eprintln!("AUTOHINT size={:?} use_loc={} gids={:?}", size, use_loc, gids);
                 }
                 let o = font.outline_glyphs();
-                let opts = HintingOptions { engine: Engine::Auto(None), target: target_of(rng.range(0, 3) as u8) };
+                let engine = if rng.chance(1, 4) { Engine::AutoFallback } else { Engine::Auto(None) };
+                let opts = HintingOptions { engine, target: target_of(rng.range(0, 3) as u8) };
+                let gids: Vec<u32> = if ng <= 64 { (0..ng).chain([ng, 65535]).collect() } else { gids.clone() };
                 if let Ok(inst) = HintingInstance::new(&o, size, lref, opts) {
                     for g in &gids {
                         if let Some(gl) = o.get(GlyphId::new(*g)) {
@@ -2735,6 +2755,198 @@ fn pick_bias(rng: &mut Rng) -> u32 {
     }
 }
 
+/// (script name, standard characters, blue-zone characters) for every auto-hinter script class, parsed from
+/// skrifa/generated/generated_autohint_styles.rs of the tree under test
+fn autohint_scripts() -> Vec<(String, Vec<u32>, Vec<u32>)> {
+    let repo = std::env::var("FV_REPO").unwrap_or_else(|_| "/repo".into());
+    let src = std::fs::read_to_string(format!("{repo}/skrifa/generated/generated_autohint_styles.rs")).unwrap_or_default();
+    let mut out = vec![];
+    for block in src.split("ScriptClass {").skip(1) {
+        let q = |key: &str| -> Option<String> {
+            let i = block.find(key)?;
+            let r = &block[i + key.len()..];
+            let a = r.find('"')?;
+            let b = r[a + 1..].find('"')?;
+            Some(r[a + 1..a + 1 + b].to_string())
+        };
+        let (Some(name), Some(std)) = (q("name:"), q("std_chars:")) else { continue };
+        let firsts = |s: &str| -> Vec<u32> { s.split(' ').filter_map(|c| c.chars().next()).map(|c| c as u32).collect() };
+        let mut blues = vec![];
+        if let Some(i) = block.find("blues: &[") {
+            let r = &block[i..block[i..].find("],").map(|e| i + e).unwrap_or(block.len())];
+            for part in r.split("(\"").skip(1) {
+                if let Some(e) = part.find('"') {
+                    blues.extend(firsts(&part[..e]));
+                }
+            }
+        }
+        blues.sort();
+        blues.dedup();
+        out.push((name, firsts(&std), blues));
+    }
+    if out.is_empty() {
+        out.push(("Latin".into(), vec!['o' as u32, 'O' as u32, '0' as u32], "THEZOCQSLUfijkdbhuvxzoescnrpqgy".chars().map(|c| c as u32).collect()));
+    }
+    out
+}
+
+/// One glyph (list of contours, all points on-curve) from a small shape grammar, sized for `u` units per em.
+fn gen_shape(rng: &mut Rng, u: i32) -> (Vec<Vec<(i16, i16)>>, &'static str) {
+    let c = |v: i32| v.clamp(-32768, 32767) as i16;
+    let ys = [-(u / 5), 0, u / 2, u * 7 / 10, u, 1, -1];
+    let (y0, y1) = {
+        let a = *rng.pick(&ys);
+        let b = *rng.pick(&ys);
+        (a.min(b), a.max(b))
+    };
+    let w = *rng.pick(&[0, 1, 2, u / 25, u / 10, u / 2, 30000, u / 2048 * 8, 8]);
+    let x0 = *rng.pick(&[0, u / 20, u / 4, -u / 10]);
+    let rect = |x0: i32, y0: i32, x1: i32, y1: i32| vec![(c(x0), c(y0)), (c(x0), c(y1)), (c(x1), c(y1)), (c(x1), c(y0))];
+    match rng.range(0, 12) {
+        0 => (vec![], "empty"),
+        1 => (vec![vec![(c(x0), c(y0))]], "single point"),
+        2 => (vec![vec![(c(x0), c(y0)), (c(x0 + w), c(y1))]], "two-point contour"),
+        3 | 4 => (vec![rect(x0, y0, x0 + w, y1)], "rectangle (one stem)"),
+        5 => {
+            let t = (u / 12).max(1);
+            let mut inner = rect(x0 + t, y0 + t, x0 + u / 2 - t, y1 - t);
+            inner.reverse();
+            (vec![rect(x0, y0, x0 + u / 2, y1), inner], "ring (outer + inner rectangle)")
+        }
+        6 => {
+            let (cx, cy, r) = (x0 + u / 4, (y0 + y1) / 2, (u / 4).max(2));
+            (vec![vec![(c(cx), c(cy - r)), (c(cx - r), c(cy)), (c(cx), c(cy + r)), (c(cx + r), c(cy))]], "diamond (no horizontal or vertical edge)")
+        }
+        7 => (vec![vec![(c(x0), c(y0)), (c(x0 + u / 4), c(y1)), (c(x0 + u / 2), c(y0 + 1))]], "triangle"),
+        8 => {
+            let t = (u / 12).max(1);
+            (vec![rect(x0, y0, x0 + t, y1), rect(x0 + u / 3, y0, x0 + u / 3 + t, y1), rect(x0 + t, (y0 + y1) / 2, x0 + u / 3, (y0 + y1) / 2 + t)], "H (two stems + bar)")
+        }
+        9 => {
+            let t = (u / 12).max(1);
+            (vec![rect(x0, y0, x0 + t, y1), rect(x0 + t, y0, x0 + u / 3, y0 + t), rect(x0 + t, y1 - t, x0 + u / 3, y1), rect(x0 + t, (y0 + y1) / 2, x0 + u / 4, (y0 + y1) / 2 + t)], "E (stem + three bars)")
+        }
+        10 => (vec![rect(-32768, -32768, 32767, 32767)], "rectangle at the coordinate extremes"),
+        11 => (vec![vec![(c(x0), c(y0)), (c(x0 + u / 2), c(y0)), (c(x0 + u / 4), c(y0)), (c(x0 + u), c(y0))]], "collinear back-and-forth contour"),
+        _ => {
+            let n = rng.range(3, 8);
+            let e = [i16::MIN, i16::MAX, 0, 1, -1, c(u), c(u / 2), c(-u / 5)];
+            ((0..1).map(|_| (0..n).map(|_| (*rng.pick(&e), *rng.pick(&e))).collect()).collect(), "random polygon over extreme coordinates")
+        }
+    }
+}
+
+/// glyf-flavoured font: glyph 0 empty, glyph i+1 = shapes[i] mapped from chars[i] (cmap format 12)
+fn build_multi_tt(upem: u16, chars: &[u32], shapes: &[Vec<Vec<(i16, i16)>>]) -> Vec<u8> {
+    let n = chars.len() + 1;
+    let mut glyf = vec![];
+    let mut loca = vec![];
+    be32(&mut loca, 0);
+    be32(&mut loca, 0);
+    let mut max_pts = 0usize;
+    for contours in shapes {
+        let pts: Vec<(i16, i16)> = contours.iter().flatten().cloned().collect();
+        max_pts = max_pts.max(pts.len());
+        if !pts.is_empty() {
+            let mut g = vec![];
+            bei16(&mut g, contours.len() as i16);
+            let (mut x0, mut y0, mut x1, mut y1) = (i16::MAX, i16::MAX, i16::MIN, i16::MIN);
+            for (x, y) in &pts {
+                x0 = x0.min(*x);
+                y0 = y0.min(*y);
+                x1 = x1.max(*x);
+                y1 = y1.max(*y);
+            }
+            for v in [x0, y0, x1, y1] {
+                bei16(&mut g, v);
+            }
+            let mut end = 0usize;
+            for ct in contours {
+                end += ct.len();
+                be16(&mut g, (end - 1) as u16);
+            }
+            be16(&mut g, 0);
+            for _ in &pts {
+                g.push(0x01);
+            }
+            let mut p = 0i16;
+            for (x, _) in &pts {
+                bei16(&mut g, x.wrapping_sub(p));
+                p = *x;
+            }
+            let mut p = 0i16;
+            for (_, y) in &pts {
+                bei16(&mut g, y.wrapping_sub(p));
+                p = *y;
+            }
+            while g.len() % 4 != 0 {
+                g.push(0);
+            }
+            glyf.extend(g);
+        }
+        be32(&mut loca, glyf.len() as u32);
+    }
+    if glyf.is_empty() {
+        glyf.extend_from_slice(&[0; 4]);
+    }
+    let mut head = vec![];
+    be32(&mut head, 0x00010000);
+    be32(&mut head, 0x00010000);
+    be32(&mut head, 0);
+    be32(&mut head, 0x5F0F3CF5);
+    be16(&mut head, 0x000B);
+    be16(&mut head, upem);
+    head.extend_from_slice(&[0; 16]);
+    for v in [0i16, 0, 500, 700] {
+        bei16(&mut head, v);
+    }
+    be16(&mut head, 0);
+    be16(&mut head, 6);
+    bei16(&mut head, 2);
+    bei16(&mut head, 1);
+    bei16(&mut head, 0);
+    let mut maxp = vec![];
+    be32(&mut maxp, 0x00010000);
+    be16(&mut maxp, n as u16);
+    be16(&mut maxp, max_pts as u16);
+    be16(&mut maxp, 4);
+    for v in [0u16, 0, 2, 0, 0, 0, 0, 64, 0, 0, 0] {
+        be16(&mut maxp, v);
+    }
+    let mut hhea = vec![];
+    be32(&mut hhea, 0x00010000);
+    bei16(&mut hhea, (upem as i32 * 8 / 10).min(32767) as i16);
+    bei16(&mut hhea, -((upem as i32 / 5).min(32767) as i16));
+    bei16(&mut hhea, 0);
+    be16(&mut hhea, upem);
+    hhea.extend_from_slice(&[0; 22]);
+    be16(&mut hhea, n as u16);
+    let mut hmtx = vec![];
+    for _ in 0..n {
+        be16(&mut hmtx, upem / 2 + 1);
+        bei16(&mut hmtx, 0);
+    }
+    let mut order: Vec<usize> = (0..chars.len()).collect();
+    order.sort_by_key(|i| chars[*i]);
+    let mut cmap = vec![];
+    be16(&mut cmap, 0);
+    be16(&mut cmap, 1);
+    be16(&mut cmap, 3);
+    be16(&mut cmap, 10);
+    be32(&mut cmap, 12);
+    be16(&mut cmap, 12);
+    be16(&mut cmap, 0);
+    be32(&mut cmap, 16 + 12 * chars.len() as u32);
+    be32(&mut cmap, 0);
+    be32(&mut cmap, chars.len() as u32);
+    for i in order {
+        be32(&mut cmap, chars[i]);
+        be32(&mut cmap, chars[i]);
+        be32(&mut cmap, i as u32 + 1);
+    }
+    sfnt(&[(b"head", head), (b"maxp", maxp), (b"hhea", hhea), (b"hmtx", hmtx), (b"loca", loca), (b"glyf", glyf), (b"cmap", cmap)])
+}
+
 /// Structured case `idx`: (font bytes, description, API groups to run)
 fn gen_structured(rng: &mut Rng, idx: u64) -> (Vec<u8>, serde_json::Value, Vec<usize>) {
     match idx % 32 {
@@ -2762,6 +2974,28 @@ fn gen_structured(rng: &mut Rng, idx: u64) -> (Vec<u8>, serde_json::Value, Vec<u
                        "entry_map_data": "sum(entry_map_count) records, zero filled", "base": "SIMPLE_GLYF + this `IFT ` table"}),
                 vec![9],
             )
+        }
+        23 | 24 => {
+            // the auto-hinter on a synthetic font of one script: standard characters x blue-zone characters, every glyph
+            // a random shape of the grammar (stems of width 0 / 1 / huge, stemless diamonds and triangles, degenerate
+            // and extreme contours), every glyph drawn with Engine::Auto / AutoFallback
+            thread_local! { static SCRIPTS: Vec<(String, Vec<u32>, Vec<u32>)> = autohint_scripts(); }
+            let (name, std, blues) = SCRIPTS.with(|s| s[rng.below(s.len() as u64) as usize].clone());
+            let upem = *rng.pick(&[16u16, 1000, 1000, 2048, 2048, 16384]);
+            let mut chars: Vec<u32> = std.clone();
+            let mut b = blues.clone();
+            rng.shuffle(&mut b);
+            chars.extend(b.into_iter().take(rng.range(0, 14) as usize));
+            chars.sort();
+            chars.dedup();
+            let mut shapes = vec![];
+            let mut desc = vec![];
+            for ch in &chars {
+                let (sh, nm) = gen_shape(rng, upem as i32);
+                desc.push(format!("U+{:04X}{}: {} {:?}", ch, if std.contains(ch) { " (standard)" } else { "" }, nm, sh));
+                shapes.push(sh);
+            }
+            (build_multi_tt(upem, &chars, &shapes), json!({"kind": "autohint-synthetic-script-font", "script": name, "unitsPerEm": upem, "glyphs (gid 1.., char: shape contours)": desc}), vec![5, 5, 5, 3])
         }
         25 => {
             // SVG table with hostile document records
@@ -3151,8 +3385,8 @@ fn search(seed: u64, thorough: bool, st: &mut Stats, fonts: &[(&'static str, Vec
                     let mut rng = Rng::new(seed ^ i.wrapping_mul(0x9E3779B97F4A7C15) ^ 0x57AC);
                     let (bytes, desc, apis) = gen_structured(&mut rng, i);
                     *counts.entry(format!("struct.{}", desc["kind"].as_str().unwrap_or("?"))).or_insert(0) += 1;
-                    for api in apis {
-                        let sel = seed ^ i.wrapping_mul(131) ^ api as u64;
+                    for (k, api) in apis.into_iter().enumerate() {
+                        let sel = seed ^ i.wrapping_mul(131) ^ api as u64 ^ ((k as u64) << 24);
                         if trace {
                             eprintln!("STRUCT {} api={} {}", i, API_NAMES[api], desc);
                         }
@@ -3507,7 +3741,7 @@ fn struct_debug() {
         let r = catch_loc(move || intersecting_patches(&FontRef::new(&bytes).unwrap(), &SubsetDefinition::all()).map(|v| v.len()));
         println!("MINIMAL {} (IFT table {} bytes): {:?}", name, n, r.map_err(|t| format!("{} @ {}", t.msg, t.loc)));
     }
-    for idx in [0u64, 32, 64, 1, 2, 11, 12, 13, 30, 62, 31, 63] {
+    for idx in [0u64, 32, 64, 1, 2, 11, 12, 13, 30, 62, 31, 63, 23, 24, 55] {
         let mut rng = Rng::new(idx);
         let (bytes, desc, _) = gen_structured(&mut rng, idx);
         println!("--- {} len={} {}", idx, bytes.len(), &desc.to_string()[..desc.to_string().len().min(300)]);
